@@ -640,3 +640,52 @@ Proof.
   - apply header_eqv_b_iff, H. - apply proposed_eqv_b_iff, H. - apply committed_eqv_b_iff, H.
   - apply sparse_eqv_b_iff, H. - apply cmsg_eqv_b_iff, H.
 Qed.
+
+(** * Non-vacuity: the hypotheses are satisfiable and the functions compute *)
+Definition ex_key1 : pubkey := mk_pk 1 [1;2;3;4;5;6;7;8;9;10;11;12;13;14;15;16;17;18;19;20;21;22;23;24;25;26;27;28;29;30;31;32].
+Definition ex_key2 : pubkey := mk_pk 2 [9;9;9;9].
+Definition ex_valset : valset :=
+  mk_valset (Some [mk_validator (Some ex_key1) 10; mk_validator (Some ex_key2) 18446744073709551615])
+            (Some [Some ex_key1; Some ex_key2]) (Some [7;7]) None.
+Definition ex_proofs : pmap :=
+  Some [([66;65], Some [mk_ssig (Some [0;1]) (Some [5;5;5])]); ([], None); ([65], Some [])].
+Definition ex_header : header :=
+  mk_header (Some [1;2;3]) None 5 (mk_commit_proof 2 [8;8] ex_proofs) ex_valset
+            (mk_valset None None None (Some [])) (Some []) None (Some [42]) None.
+Definition ex_proposed : proposed_header := mk_proposed ex_header 3 (Some ex_key1) None (Some [1]) (Some [2;2]).
+Definition ex_sparse : sparse_proof := mk_sparse 5 0 [8;8] ex_proofs.
+
+Example ex_wf :
+  header_wf_b harness_registry ex_header = true /\
+  proposed_wf_b harness_registry ex_proposed = true /\
+  committed_wf_b harness_registry (mk_committed ex_header (mk_commit_proof 0 [] None)) = true /\
+  sparse_wf_b ex_sparse = true /\
+  cmsg_wf_b harness_registry (mk_cmsg None None (Some ex_sparse)) = true.
+Proof. vm_compute. repeat split. Qed.
+
+(** the round trip is not the identity: nil Validators come back empty, the nil map of the
+    zero commit proof comes back empty, and a sparse proof's map comes back sorted *)
+Example ex_rt_not_identity :
+  (exists h', rt_header harness_registry ex_header = Ok (Some h') /\ h' <> ex_header /\
+              vs_vals (h_nvs h') = Some [] /\ header_eqv ex_header h') /\
+  sp_proofs (rt_sparse ex_sparse) =
+    Some [([], None); ([65], Some []); ([66;65], Some [mk_ssig (Some [0;1]) (Some [5;5;5])])].
+Proof.
+  split.
+  - destruct (header_roundtrip harness_registry ex_header harness_registry_wf (proj1 ex_wf)) as [h' [E V]].
+    exists h'. split; [exact E|]. split; [|split; [|exact V]].
+    + vm_compute in E. inversion E; subst. discriminate.
+    + vm_compute in E. inversion E; subst. reflexivity.
+  - vm_compute. reflexivity.
+Qed.
+
+(** an unregistered or nil key makes the ENCODER panic (Registry.Marshal), a key its constructor
+    refuses makes the decoder return an error: both are excluded by the well-formedness hypothesis *)
+Example ex_not_wf :
+  (exists s, rt_header harness_registry
+     (mk_header None None 0 zero_commit_proof (mk_valset (Some [mk_validator (Some (mk_pk 3 [1])) 1]) None None None)
+                (mk_valset None None None None) None None None None) = Panic s) /\
+  rt_header harness_registry
+     (mk_header None None 0 zero_commit_proof (mk_valset (Some [mk_validator (Some (mk_pk 2 [1;2;3;4;5])) 1]) None None None)
+                (mk_valset None None None None) None None None None) = Ok None.
+Proof. split; [eexists|]; vm_compute; reflexivity. Qed.
